@@ -457,6 +457,47 @@ fn run_byz_encoder(plan: &Plan, lib: &dyn Lib, rec: &mut Rec) {
                     }
                 }
             }
+            // two point positions of the same group made invalid TOGETHER so that the stray parts cancel in their sum
+            // (P_i + R, P_j - R): a decoder that tests some combination of the points instead of each point accepts
+            for i in 0..positions.len() {
+                for j in i + 1..positions.len() {
+                    let ((oi, li), (oj, lj)) = (positions[i], positions[j]);
+                    if li != lj {
+                        continue;
+                    }
+                    let (gi, gj) = (&s.bytes[oi..oi + li], &s.bytes[oj..oj + lj]);
+                    if gi == gj {
+                        continue;
+                    }
+                    let (Some(pi_), Some(pj_)) = (Pt::from_bytes(gi), Pt::from_bytes(gj)) else { continue };
+                    for (kind, r) in [("mixed", Pt::from_bytes_unchecked(&refimpl::off_subgroup_point(li, plan.seed ^ 77)).unwrap()), ("torsion", refimpl::small_order_point(li, plan.seed ^ 78))] {
+                        let (bi, bj) = (pi_.add(&r).to_bytes(), pj_.sub(&r).to_bytes());
+                        if refimpl::classify_point(&bi) != PointClass::OnCurveNotInSubgroup || refimpl::classify_point(&bj) != PointClass::OnCurveNotInSubgroup {
+                            continue;
+                        }
+                        let forged = match cd {
+                            Codec::Json => {
+                                let text = String::from_utf8_lossy(&enc).to_string();
+                                if !text.contains(&hex(gi)) || !text.contains(&hex(gj)) {
+                                    continue;
+                                }
+                                text.replacen(&hex(gi), &hex(&bi), 1).replacen(&hex(gj), &hex(&bj), 1).into_bytes()
+                            }
+                            _ => {
+                                let (Some(a), Some(b)) = (subslice_pos(&enc, gi), subslice_pos(&enc, gj)) else { continue };
+                                let mut e = enc.clone();
+                                e[a..a + li].copy_from_slice(&bi);
+                                e[b..b + lj].copy_from_slice(&bj);
+                                e
+                            }
+                        };
+                        rec.fault("byz-compensating-points");
+                        rec.case(&[16, g as u64, s.ty as u64, cd as u64, 100 + (i * 8 + j) as u64, kind.len() as u64], true);
+                        let out = recode(rec, lib, g, s.ty, cd, Codec::Bytes, &forged);
+                        rec.expect("C16", "invalid-point-rejected", !out.is_ok(), || format!("compensating-{} {} {} | points #{} and #{} replaced by P+R and P'-R (R outside the subgroup) and the decoder returned a value", kind, s.ty.name(), cd.name(), i, j));
+                    }
+                }
+            }
         }
     }
     // share containers hold unparsed point bytes: validated when used
